@@ -35,6 +35,13 @@ def bodies(rng, tier):
               "a&b<c>d", 'q"uote\'s', "back\\slash", "tab\there", "nul\x00byte", "\x7f\x1b[31m", "\u00e9\u65e5\u672c", "\U0001F600", "x" * 3000, " lead and trail "):
         out.append(json.dumps({"name": "John", "email": v}))
         out.append(json.dumps({"name": "", "email": v}, ensure_ascii=False))
+    # fields that decode themselves (time.Time, netip.Addr, custom UnmarshalJSON / UnmarshalText): well-formed JSON of the right
+    # kind that the field's own decoder rejects is still a body that does not decode
+    out += ['{"mode":"ok","when":"tomorrow"}', '{"mode":"ok","when":"2024-01-02T03:04:05Z"}', '{"mode":"fail","at":"2024-13-45T00:00:00Z"}', '{"mode":"ok","at":""}',
+            '{"mode":"ok","at":"2024-01-02T03:04:05+01:00"}', '{"mode":"ok","addr":"999.1.1.1"}', '{"mode":"ok","addr":"10.0.0.1"}', '{"mode":"ok","addr":"::1%eth0"}',
+            '{"mode":"ok","addr":""}', '{"mode":"ok","odd":"bad"}', '{"mode":"ok","odd":{"k":"bad"}}', '{"mode":"ok","odd":[1,2]}', '{"mode":"fail","odd":"bad"}',
+            '{"mode":"ok","txt":"!x"}', '{"mode":"ok","txt":"x!"}', '{"mode":"ok","txt":5}', '{"mode":"ok","when":null,"odd":null}', '{"mode":"ok","when":12}',
+            '{"name":"John","email":"john@example.com","when":"tomorrow"}']
     for mode in ("ok", "fail", "canceled", "deadline", "wrapped-canceled", "wrapped-deadline", "empty-message", "zzz"):
         out.append(json.dumps({"mode": mode}))
         out.append(json.dumps({"mode": mode, "name": "John", "email": "john@example.com"}))
